@@ -239,6 +239,23 @@ def reference(name, rng):
             v = frob(G, R.iso(M_used, f))
             exp.update({"v": v, "b": a, "fa": a, "fv": v, "fb": a})
         return env, sol, exp
+    if r.startswith("dect_"):
+        pname = r[5:]
+        l = R.dec_spectrum(rng, N, pname)
+        Ms = R.rnd_orth(rng)
+        sv = R.iso(Ms, l).mandel(N)
+        env = {"s%d" % i: sv[i] for i in range(n)}
+        env["eps"] = eps
+        sol = dict(R.m_env(Ms))
+        sol.update({"vp%d" % i: l[i] for i in range(3)})
+        for positive, ka, kp in ((True, "a", "p"), (False, "b", "n")):
+            T, vals, br = R.dec_theta_vals(N, l, eps, positive)
+            tab = R.table(N, lambda H, T=T: R.dk_act(Ms, T, H))
+            for i in range(n):
+                for j in range(n):
+                    exp["%s%d_%d" % (ka, i, j)] = tab[i * n + j]
+            put_vec(kp, R.iso(Ms, vals).mandel(N))
+        return env, sol, exp
     if r.startswith("dec_"):
         pname = r[4:]
         l = R.dec_spectrum(rng, N, pname)
